@@ -42,10 +42,10 @@ const (
 
 // scopes of the probe site
 var c50Scopes = []string{
-	"same-composite",       // a function of the declaring composite
-	"sibling-composite",    // a function of another composite of the same contract
-	"contract-function",    // the enclosing contract's own function (declaring composite nested in it)
-	"nested-in-declaring",  // a function of a composite nested in the declaring contract (declaring = the contract)
+	"same-composite",      // a function of the declaring composite
+	"sibling-composite",   // a function of another composite of the same contract
+	"contract-function",   // the enclosing contract's own function (declaring composite nested in it)
+	"nested-in-declaring", // a function of a composite nested in the declaring contract (declaring = the contract)
 	"other-contract-same-account",
 	"other-contract-other-account",
 	"transaction",
@@ -489,9 +489,9 @@ func TestC50(t *testing.T) {
 	rec.Extra("exhaustive_subspaces", "the whole case space described in the rule (merged over shards)")
 	rec.Extra("declaration_shapes", len(shapes))
 	for _, s := range c50Scopes {
-		rec.RequireClasses(t, "scope:"+s)
+		requireClasses(t, rec, "scope:"+s)
 	}
-	rec.RequireClasses(t, "model-allows:true", "model-allows:false", "probe:init-second-branch/let", "receiver:ref", "receiver:self", "receiver:owned",
+	requireClasses(t, rec, "model-allows:true", "model-allows:false", "probe:init-second-branch/let", "receiver:ref", "receiver:self", "receiver:owned",
 		"declaring:S", "declaring:R", "declaring:C1")
 }
 
